@@ -89,6 +89,9 @@ type Network struct {
 	connSeq  int
 	// OnEvent, when set, is called (outside the lock) for every event.
 	OnEvent func(Event)
+	// Mangle, when set, may rewrite a packet in flight (after it was tapped as
+	// sent); returning nil drops it.
+	Mangle func(src, dst string, b []byte) []byte
 }
 
 // New creates a network. Must be called inside the bubble.
@@ -316,6 +319,15 @@ func (n *Network) sendPacket(src, dst string, b []byte) {
 		delays = []time.Duration{200 * time.Microsecond}
 	}
 	n.emit(Event{Kind: "pkt", Src: src, Dst: dst, Data: data, Delay: delays[0]})
+	n.mu.Lock()
+	mg := n.Mangle
+	n.mu.Unlock()
+	if mg != nil {
+		data = mg(src, dst, data)
+		if data == nil {
+			return
+		}
+	}
 	for _, d := range delays {
 		if d <= 0 {
 			d = time.Microsecond
